@@ -61,7 +61,11 @@ def run():
             cache = None
             if ro:
                 cache = cls(LocalFileSystem(), odb.path, **({"hash_name": hash_name} if hash_name else {}))
-                odb.read_only = True
+                if used_kind == "set":
+                    # the store is OPENED read-only (constructor argument), as get_odb(..., read_only=True) does
+                    odb = cls(LocalFileSystem(), odb.path, read_only=True, **({"hash_name": hash_name} if hash_name else {}))
+                else:
+                    odb.read_only = True
             rep = {"cls": cls.__name__, "hash_name": hash_name, "shallow": shallow, "dry": dry, "read_only_store_with_writable_cache_odb": ro, "garbage_is_directory_objects_only": only_dirs}
             # the signature promises an Iterable: a list, a set, or a one-shot iterator (generator) of ids
             used_arg = {"list": list(used), "set": set(used), "generator": (h for h in list(used))}[used_kind.split("+")[0]]
